@@ -14,4 +14,5 @@ void sut_guarded(int type, void *l, void (*body)(void *), void *arg);
 size_t sut_guard_size(int gt);
 int sut_guard_op(int gt, int op, void *a, void *b, sim::SimMutex *m);
 void sut_mutex_construct(void *mem);
+int sut_ticket_layout_ok();
 }
